@@ -106,6 +106,9 @@ Ltac c05_init s a kwr tac :=
      end; clear Ha).
 
 Ltac c05_hook s :=
+  lazymatch goal with
+  | _ : s = _ |- _ => idtac
+  | _ =>
   lazymatch s with
   | Angle___init__ Rops (VObj cAngle [VNone; VNone]) (mk_tuple [?a])
       (mk_dict [kw "radians" (VBool true)]) => c05_init s a true sph_dec
@@ -114,6 +117,7 @@ Ltac c05_hook s :=
   | Angle_to_positive Rops (VObj cAngle [VFloat ?d; VFloat _]) =>
       assert (s = VTuple [ang (topos d); ang (topos d)]) by (apply to_positive_topos)
   | _ => idtac
+  end
   end.
 Ltac py_trace s ::= c05_hook s.
 
@@ -175,3 +179,55 @@ Lemma r2d_atan2_range y x : -180 < r2d (atan2 y x) <= 180.
 Proof. apply atan2_deg_bound. Qed.
 Lemma topos_r2d_atan2_range y x : 0 <= topos (r2d (atan2 y x)) < 360.
 Proof. apply topos_range. pose proof (r2d_atan2_range y x). lra. Qed.
+
+(* ---- call-by-value variant of pyrun for deeply nested arithmetic ----
+   pyrun evaluates the expression of a bind by weak-head steps (call-by-name); the
+   operator dispatch wrappers copy their unevaluated arguments into every branch, which
+   is exponential in the nesting depth.  [crun] first evaluates innermost operator
+   applications whose arguments are already float values. *)
+Ltac eval_sub t tac :=
+  let H := fresh "Hsub" in
+  eassert (H : t = _) by (pyrun_using tac; py_canon_refl);
+  rewrite H; clear H.
+
+Ltac step_inner tac :=
+  match goal with
+  | |- context [m1 Rops ?fn (VFloat ?x)] => eval_sub constr:(m1 Rops fn (VFloat x)) tac
+  | |- context [m2 Rops ?fn (VFloat ?x) (VFloat ?y)] =>
+      eval_sub constr:(m2 Rops fn (VFloat x) (VFloat y)) tac
+  | |- context [math_sqrt Rops (VFloat ?x)] => eval_sub constr:(math_sqrt Rops (VFloat x)) tac
+  | |- context [?f Rops (VFloat ?x) (VFloat ?y)] =>
+      eval_sub constr:(f Rops (VFloat x) (VFloat y)) tac
+  | |- context [?f Rops (VFloat ?x) (VInt ?y)] =>
+      eval_sub constr:(f Rops (VFloat x) (VInt y)) tac
+  | |- context [guard [VFloat ?x] (fun _ : unit => VFloat ?y)] =>
+      eval_sub constr:(guard [VFloat x] (fun _ : unit => VFloat y)) tac
+  end.
+
+Ltac crun_using tac :=
+  whnf_lhs;
+  lazymatch goal with
+  | |- ?l = _ =>
+    tryif is_canon l then expose_R else
+    first [
+      lazymatch l with
+      | bind ?e ?k =>
+          tryif is_canon e then
+            lazymatch e with
+            | VErr _ => rewrite (bind_err _ k)
+            | _ => rewrite (bind_ok e k) by reflexivity; cbv beta
+            end
+          else
+            (repeat (step_inner tac);
+             lazymatch goal with
+             | |- bind ?e' ?k' = _ =>
+                 tryif is_canon e' then idtac else
+                 (let H := fresh "Hev" in
+                  eassert (H : e' = _) by (pyrun_using tac; py_canon_refl);
+                  rewrite H; clear H)
+             end)
+      end;
+      crun_using tac
+    | pyrun_using tac ]
+  end.
+Ltac crun := crun_using sph_dec.
